@@ -42,6 +42,9 @@ func runC05(c *Check) {
 	c05ProofsCache(c, "R5.4")
 	// a truncated file that is accepted reads back as tail padding: shared with C07
 	c07ErrorsAndSizes(c, "R5.5", "R5.6")
+	// the cached read path returns the stored block only if the cache neither loses nor orphans accessors (C08 R8.3, R8.7-R8.9)
+	c.Rule("R5.8", "contracts the cached read path rests on: accessor cache atomicity and eviction rules of C08")
+	importRules(c, "R5.8", "C08 R8.3/R8.7/R8.8/R8.9", runC08, pickRule("R8.3", "R8.7", "R8.8", "R8.9"), func(s *Check) int { return s.evals })
 }
 
 func c05Forwarders(c *Check) {
@@ -867,6 +870,7 @@ func runC08(c *Check) {
 	c.Floor("R8.6", "blocking operations in the store packages", nWait, 1)
 	c08CloseOnce(c)
 	c08CacheLayers(c)
+	c08RemovalEvicts(c, la)
 }
 
 func c08CheckThenAdd(c *Check, la *lockAnalysis) {
